@@ -104,6 +104,16 @@ theorem inv3b_dSend (s s' : State) (i : Nat) (h1 : Inv1 s) (ha : Inv3a s) (hd : 
   simp only [step] at h
   (repeat' split at h) <;> close_case3
 
+theorem inv3b_uFail (s s' : State) (i : Nat) (h1 : Inv1 s) (ha : Inv3a s) (hd : Inv3d s) (hI : Inv3b cfg s) (h : step cfg s (.uFail i) = some s') : Inv3b cfg s' := by
+  have a5 := h1.tab
+  have a6 := h1.inTab
+  clear h1
+  obtain ⟨k1,u2,u3,g5,gp⟩ := ha
+  obtain ⟨u1⟩ := hd
+  obtain ⟨e0,e1,e2,g9⟩ := hI
+  simp only [step] at h
+  (repeat' split at h) <;> close_case3
+
 set_option maxHeartbeats 1600000 in
 theorem inv3b_cleanup (s s' : State) (i : Nat) (h1 : Inv1 s) (ha : Inv3a s) (hd : Inv3d s) (hI : Inv3b cfg s) (h : step cfg s (.cleanup i) = some s') : Inv3b cfg s' := by
   have a5 := h1.tab
@@ -190,6 +200,7 @@ theorem inv3b_step (s s' : State) (e : Ev) (h1 : Inv1 s) (ha : Inv3a s) (hd : In
   | dTimeout i => exact inv3b_dTimeout cfg s s' i h1 ha hd hI h
   | dPacket i => exact inv3b_dPacket cfg s s' i h1 ha hd hI h
   | dSend i => exact inv3b_dSend cfg s s' i h1 ha hd hI h
+  | uFail i => exact inv3b_uFail cfg s s' i h1 ha hd hI h
   | cleanup i => exact inv3b_cleanup cfg s s' i h1 ha hd hI h
   | uRecv i k => exact inv3b_uRecv cfg s s' i k h1 ha hd hI h
   | uStep i => exact inv3b_uStep cfg s s' i h1 ha hd hI h
